@@ -116,6 +116,7 @@ def install(cx, files, listing):
     import pyerrors.input.openQCD as Q
     lib.sym_env(cx, *MODS)
     if cx.mode == 'sym':
+        vars(Q)['np'].__dict__['frombuffer'] = tbuf.frombuffer
         cx.patch(Q, 'struct', tbuf.STRUCT)
         cx.patch(Q, 'open', lambda path, mode='r': tbuf.SymFile(*files[path.split('/')[-1]]))
         cx.patch(Q, 'os', types.SimpleNamespace(walk=lambda path: iter([(path, [], list(listing))]), path=os.path))
@@ -216,7 +217,7 @@ def compare_result(cx, fmt, res, specs, label):
         lib.compare(cx, o, lib.primary_spec(s), '%s[%d]' % (label, i))
 
 
-def h_read(cx, fmt, reps, nrec, first, step, p=None, listing=None, sel=None, truncate=None, trunc_from=0):
+def h_read(cx, fmt, reps, nrec, first, step, p=None, listing=None, sel=None, truncate=None, trunc_from=0, exact=False):
     """reps: replica suffixes e.g. ['r0', 'r1']; nrec / first / step per replica (lists);
     sel: dict(r_start=[..], r_stop=[..], r_step=k) selection; truncate: index of the replica whose file length is symbolic."""
     import pyerrors as pe
@@ -240,6 +241,8 @@ def h_read(cx, fmt, reps, nrec, first, step, p=None, listing=None, sel=None, tru
     for name in files:
         if files[name][1] is None:
             files[name][1] = nbytes(files[name][0])
+    if exact and cx.mode == 'sym':
+        cx.patch(tbuf.SymFile, 'exact', True)
     order = list(files) if listing is None else [list(files)[i] for i in listing]
     path = install(cx, {k: tuple(v) for k, v in files.items()}, order)
     kw = {}
